@@ -122,6 +122,19 @@ func (x *Exec) instrMods(ins ssa.Instruction, out modset, visiting map[*ssa.Func
 		x.addrRootComp(in.Addr, out)
 	case *ssa.MapUpdate:
 		x.mapCompsAt(in.Map.Type().Underlying().(*types.Map), in.Map, out)
+	case *ssa.Next:
+		if !in.IsString {
+			if mt, ok := in.Iter.(*ssa.Range).X.Type().Underlying().(*types.Map); ok {
+				vn, _, ks := x.visComps(mt)
+				out.at(vn, SArr(SInt, SArr(ks, SBool)), in.Iter)
+			}
+		}
+	case *ssa.Range:
+		if mt, ok := in.X.Type().Underlying().(*types.Map); ok {
+			vn, cn, ks := x.visComps(mt)
+			out.whole(vn, SArr(SInt, SArr(ks, SBool)))
+			out.whole(cn, SArr(SInt, SInt))
+		}
 	case *ssa.MakeMap:
 		// fresh map: no pre-existing location changes
 	case *ssa.Alloc:
@@ -586,7 +599,7 @@ func (x *Exec) enterLoop(fr *Frame, lp *loop, st *State) {
 	if ls != nil {
 		for k, f := range ls.invSSA {
 			v := x.evalLoopFn(fr, hdr, ls, ls.invFns[k], f, st)
-			x.oblige(st, "inv-init", fmt.Sprintf("loop%d.%d", lp.ordinal, k), v, hdr.Instrs[0].Pos())
+			x.oblige(st, "inv-init", ls.invName(lp.ordinal, k), v, hdr.Instrs[0].Pos())
 		}
 	} else if x.specDepth == 0 {
 		x.note("loop %d of %s has no invariant: loop-modified state is arbitrary after the cut", lp.ordinal, shortFn(fr.fn.String()))
@@ -677,6 +690,8 @@ func (x *Exec) enterLoop(fr *Frame, lp *loop, st *State) {
 				} else if row, ok := x.arrayFieldRow(st, v); ok {
 					ref = row
 				}
+			case *mapIter:
+				ref = v.id
 			}
 			if ref == nil || ref.sort != SInt {
 				h = x.w.Fresh(n, mi.sort)
@@ -770,7 +785,7 @@ func (x *Exec) backEdge(fr *Frame, lp *loop, from *ssa.BasicBlock, cond *Term, s
 	sub.guard = cond
 	for k, f := range ls.invSSA {
 		v := x.evalLoopFn(fr, hdr, ls, ls.invFns[k], f, sub)
-		x.oblige(sub, "inv-step", fmt.Sprintf("loop%d.%d", lp.ordinal, k), v, from.Instrs[len(from.Instrs)-1].Pos())
+		x.oblige(sub, "inv-step", ls.invName(lp.ordinal, k), v, from.Instrs[len(from.Instrs)-1].Pos())
 	}
 	if ls.decrSSA != nil && len(lp.decr0) == 1 {
 		d := x.evalLoopFn(fr, hdr, ls, ls.decrFn, ls.decrSSA, sub)
@@ -894,4 +909,22 @@ func isFreshAlloc(v ssa.Value) bool {
 		return true
 	}
 	return false
+}
+
+// loopMayDelete: the loop may remove entries from a map of type mt (a delete,
+// or a call that writes maps of that type): then "every entry present at the
+// start is produced exactly once" is not assumed for iterations in it.
+func (x *Exec) loopMayDelete(lp *loop, mt *types.Map) bool {
+	dn, _, _, _, _ := x.mapComps(mt)
+	out := modset{}
+	for b := range lp.blocks {
+		for _, ins := range b.Instrs {
+			if _, ok := ins.(*ssa.MapUpdate); ok {
+				continue
+			}
+			x.instrMods(ins, out, map[*ssa.Function]bool{})
+		}
+	}
+	_, touched := out[dn]
+	return touched
 }
